@@ -210,6 +210,21 @@ func (a *boundsAn) formOf0(v ssa.Value) lin {
 				a.addDef(linConst(n).sub(s))
 				return s
 			}
+		case token.REM:
+			// x % n for a constant n > 0: |result| <= n-1, and 0 <= result <= x for x >= 0
+			if n, ok := constInt(x.Y); ok && n > 0 {
+				s := a.sv(v, 'v')
+				a.addDef(linConst(n - 1).sub(s))
+				xf := a.formOf(x.X)
+				lo, hi := a.defsAt(x).singleBounds()
+				if l, _ := xf.bounds(lo, hi); l >= 0 {
+					a.addDef(s)
+					a.addDef(xf.sub(s))
+				} else {
+					a.addDef(s.add(linConst(n - 1)))
+				}
+				return s
+			}
 		case token.SHR:
 			if n, ok := constInt(x.Y); ok && n >= 0 && n < 62 {
 				// floor(x / 2^n): between 0 and x for x >= 0
